@@ -2194,6 +2194,24 @@ impl Property for C16 {
             }
             v.push(C16Case { scn: Scenario { receive_max: None, max_packet_size: None, id_offset: 0, prologue: 0, events }, spurious: vec![(1000, 0), (40000, 2)] });
         }
+        // hundreds to a thousand requests outstanding, one QoS 2 publish abandoned among them, and a
+        // poll of run() that nothing asked for between the cancellation and the PUBREC
+        for n in [70usize, 300, 1100] {
+            let mut events = vec![];
+            for _ in 0..n {
+                events.push(Ev::Start { h: 0, kind: OpKind::Ping, settle: false, solo: false });
+            }
+            events.push(Ev::Start { h: 0, kind: OpKind::Pub2, settle: false, solo: false });
+            events.push(Ev::Settle);
+            events.push(Ev::DropOp { sel: 65535 });
+            let at = events.len();
+            events.push(Ev::In(Inbound::Ack { sel: 65535, deco: Deco::default() }));
+            events.push(Ev::Settle);
+            events.push(Ev::In(Inbound::Ack { sel: 65535, deco: Deco::default() }));
+            events.push(Ev::Settle);
+            let pos = ((at << 16) / (events.len() + 1) + 1) as u16;
+            v.push(C16Case { scn: Scenario { receive_max: Some(2), max_packet_size: None, id_offset: 0, prologue: 0, events }, spurious: vec![(pos, 0)] });
+        }
         Box::new(v.into_iter().enumerate().filter(move |(i, _)| i % workers == worker).map(|(_, c)| c))
     }
 
